@@ -85,25 +85,31 @@ impl PrettyPrint {
         let spc = " ".repeat(n_spc);
 
         // Left align the text. Columns count characters, so everything
-        // below works on characters, never on byte offsets.
+        // below works on characters, never on byte offsets. Only blanks and
+        // tabs are indentation: any other character, white or not, may be what
+        // a diagnostic points at and stays visible.
         let chars: Vec<char> = text.chars().collect();
-        let first_non_ws = chars.iter().position(|c| !c.is_whitespace()).unwrap_or(0);
+        let first_shown = chars
+            .iter()
+            .position(|c| *c != ' ' && *c != '\t')
+            .unwrap_or(0);
 
         // Arrows pointing the the relevant position
         let end = end + 1;
         let arrows = "^".repeat(end.saturating_sub(start));
-        let offset = start.saturating_sub(first_non_ws);
+        let offset = start.saturating_sub(first_shown);
 
-        // HACK: Use the text line so we have the same tab spacing
+        // HACK: Use the tabs of the text line so we have the same tab spacing
         let mut base: String = (0..offset)
-            .map(|i| match chars.get(first_non_ws + i) {
-                Some(c) if c.is_whitespace() => *c,
+            .map(|i| match chars.get(first_shown + i) {
+                Some('\t') => '\t',
                 _ => ' ',
             })
             .collect();
         base.push_str(&arrows);
 
-        let aligned = text.trim();
+        let aligned: String = chars[first_shown.min(chars.len())..].iter().collect();
+        let aligned = aligned.trim_end_matches([' ', '\t', '\r', '\n']);
         format!("{spc} |\n {line} | {aligned}\n{spc} | {base}\n")
     }
 
